@@ -351,7 +351,7 @@ func sameSliceShape(a, b ssa.Value) bool {
 	if !ok1 || !ok2 {
 		return false
 	}
-	if sa.High != sb.High {
+	if sa.High != sb.High && !sameLocalFieldLoad(sa.High, sb.High) {
 		return false
 	}
 	return sameValue(sa.X, sb.X) || sameFieldLoad(sa.X, sb.X)
